@@ -403,9 +403,10 @@ class NMEA2000Decoder():
                     return None
                 logger.warning("No ISO name found for source %s in PGN id %s for too long. Will process it anyhow.", source_id, pgn)
         
-            if source_iso_name is not None and source_iso_name.manufacturer_code is not None:
+            if source_iso_name is not None:
                 # Check if the PGN should be excluded or included based on manufacturer
-                manufacturer_code = source_iso_name.manufacturer_code.lower()
+                # (a claimed code that is not in the lookup table is None: it matches no list entry)
+                manufacturer_code = source_iso_name.manufacturer_code.lower() if source_iso_name.manufacturer_code is not None else None
                 if manufacturer_code in self.exclude_manufacturer_code:
                     logger.debug(f"Excluding PGN: {pgn} based on manufacturer code {source_iso_name.manufacturer_code}")
                     return None
